@@ -325,6 +325,10 @@ def run_impl(steps: list[dict]) -> list:
                 out.append(None)
             elif op == "q":
                 out.append(enc_val(impl_query(slots[st["c"]], st)))
+            elif op == "fresh":
+                src = slots[st["src"]]
+                slots[st["dst"]] = Converter([r.model_copy(deep=True) for r in src.records], delimiter=src.delimiter)
+                out.append(None)
             elif op == "dups":
                 import curies.api as A
 
@@ -452,6 +456,8 @@ def show_program(steps) -> list[str]:
         elif op in ("remap_curie", "remap_uri", "rewire"):
             out.append(f"c{st['dst']} = {op}(c{st['src']}, "
                        f"{ {uncps(k): uncps(v) for k, v in st['mapping']} })")
+        elif op == "fresh":
+            out.append(f"c{st['dst']} = Converter(copy of c{st['src']}.records, delimiter=c{st['src']}.delimiter)")
         elif op == "dups":
             out.append(f"duplicates listed by Converter([{'; '.join(show_record(r) for r in st['records'])}])")
         elif op in ("load_pm", "load_reverse", "load_upgrade", "upgrade"):
